@@ -43,6 +43,9 @@ pub fn c01(ctx: &Ctx) -> PropResult {
             cases.push(run_case(format!("{pre}x <- {a}\nDISPLAY(\"before\")\nDISPLAY({op}x)\nIF (x) {{\n DISPLAY(\"truthy\")\n}} ELSE {{\n DISPLAY(\"falsy\")\n}}\n"), "table:unary"));
         }
     }
+    for src in operand_order_family() {
+        cases.push(run_case(src, "operand-order"));
+    }
     // random expression trees with probes at the operands
     let mut rng = mk_rng(ctx.seed, 1);
     let n = if ctx.quick() { 4_000 } else { 100_000 };
@@ -64,6 +67,60 @@ pub fn c01(ctx: &Ctx) -> PropResult {
         exhaustive: false,
         notes: vec![],
     }
+}
+
+/// no panic, and for cases tagged `bare-return-newline` / `newline-twin`: the twin program in `aux` (an explicit `;`
+/// where the case has a newline) behaves identically on the implementation
+pub fn newline_twin_oracle(case: &Case, out: &Outcome) -> Result<bool, String> {
+    let nt = no_panic_oracle(case, out)?;
+    if case.tags.iter().any(|t| t == "bare-return-newline" || t == "newline-twin") {
+        if let Some(r) = out.impl_run.as_ref() {
+            let twin = crate::imp::run_impl(&case.aux, "", case.fuel, 48);
+            if twin.class() != r.class() || twin.output != r.output {
+                return Err(format!("a newline after a statement-ending token did not end the statement: with `;` {} {:?} / with newline {} {:?}", twin.status_str(), twin.output, r.status_str(), r.output));
+            }
+        }
+    }
+    Ok(nt)
+}
+
+/// every construct with two or more operands, each operand drawn from: a plain variable, a probe that displays
+/// its position, an assignment to the variable another operand reads, a failing expression - so that the order
+/// (left to right, each once) and the moment a variable is read are observable
+pub fn operand_order_family() -> Vec<String> {
+    let pre = "PROCEDURE T(k, v) {\nDISPLAY(k)\nRETURN v\n}\nPROCEDURE f3(a, b, c) {\nDISPLAY(\"f3\")\nRETURN [a, b, c]\n}\nx <- 2\nl <- [10, 20, 30]\n";
+    // slot candidates by the kind of value the construct wants there
+    let nums = |k: usize| -> Vec<String> { vec!["x".into(), format!("T({k}, 1)"), "(x <- 3)".into(), format!("T({k}, 1 / 0)"), "(x <- x + 1)".into()] };
+    let lists = |k: usize| -> Vec<String> { vec!["l".into(), format!("T({k}, l)"), "(l <- [7, 8, 9, x])".into(), format!("T({k}, [x, x, x])")] };
+    let mut out = vec![];
+    let mut emit = |e: String| out.push(format!("{pre}DISPLAY(\"start\")\nr <- {e}\nDISPLAY(r)\nDISPLAY(x)\nDISPLAY(l)\n"));
+    for op in ["+", "-", "*", "/", "MOD", "==", "!=", "<", "<=", ">", ">=", "AND", "OR"] {
+        for a in nums(1) {
+            for b in nums(2) {
+                emit(format!("{a} {op} {b}"));
+            }
+        }
+    }
+    for a in lists(1) {
+        for b in nums(2) {
+            emit(format!("{a}[{b}]"));
+            emit(format!("{a} + [{b}]"));
+            emit(format!("LENGTH({a}) + {b}"));
+            for c in nums(3) {
+                emit(format!("({a}[{b}] <- {c})"));
+                emit(format!("INSERT({a}, {b}, {c})"));
+            }
+        }
+    }
+    for a in nums(1) {
+        for b in nums(2) {
+            for c in nums(3) {
+                emit(format!("f3({a}, {b}, {c})"));
+                emit(format!("[{a}, {b}, {c}]"));
+            }
+        }
+    }
+    out
 }
 
 // ---------------------------------------------------------------------------------------------
@@ -140,7 +197,7 @@ fn sk_random(rng: &mut Rng, depth: usize, in_loop: bool) -> Sk {
         3 if in_loop => Sk::Cont,
         2 | 3 => Sk::Probe,
         4 | 5 => {
-            let conds = ["TRUE", "FALSE", "0", "1", "NULL", "\"\"", "t", "NOT t", "-0", "[]"];
+            let conds = ["TRUE", "FALSE", "0", "1", "NULL", "\"\"", "t", "NOT t", "-0", "[]", "(0.1 + 0.2 - 0.3)", "(0.3 - 0.2 - 0.1)", "0.0000000000000000000001"];
             let t = sk_block(rng, depth + 1, in_loop);
             let e = if rng.chance(1, 2) { Some(sk_block(rng, depth + 1, in_loop)) } else { None };
             Sk::If(t, e, conds[rng.below(conds.len())])
@@ -224,7 +281,17 @@ pub fn c02(ctx: &Ctx) -> PropResult {
             cases.push(run_case(format!("PROCEDURE c() {{\nDISPLAY(\"cond\")\nRETURN k >= 3\n}}\nk <- 0\nREPEAT UNTIL (c()) {{\nk <- k + 1\nIF (k == {at}) {{\n{ctl}\n}}\nDISPLAY(\"tail\")\n}}\nDISPLAY(k)\n"), "until-effectful-condition"));
         }
     }
-    let stats = run_cases(&ctx.driver, cases, &no_panic_oracle, &no_known, ctx.threads);
+    // BREAK / CONTINUE at the end of a line are complete statements (twin with an explicit `;`)
+    for ctl in ["BREAK", "CONTINUE"] {
+        for next in ["-1", "(2)", "[3]", "\"dead\"", "z <- 4", "DISPLAY(\"next\")", "NOT TRUE"] {
+            for (a, b) in [("k <- 0\nREPEAT 3 TIMES {\nk <- k + 1\nDISPLAY(k)\n", "}\nDISPLAY(\"end\")\n"), ("FOR EACH e IN [1, 2] {\nIF (e == 1) {\n", "}\nDISPLAY(e)\n}\n")] {
+                let nl = format!("{a}{ctl}\n{next}\n{b}");
+                let semi = format!("{a}{ctl}; {next}\n{b}");
+                cases.push(run_case(nl, "newline-twin").aux(semi));
+            }
+        }
+    }
+    let stats = run_cases(&ctx.driver, cases, &newline_twin_oracle, &no_known, ctx.threads);
     PropResult {
         stats,
         rule: "random control-flow skeletons (depth <= 3, <= 3 statements per block; IF/ELSE over 10 condition values incl. 0, -0, NULL, \"\", []; REPEAT TIMES with counts 0, 1, 2, 3, 2.7, -1, 0.99, variable; REPEAT UNTIL; FOR EACH over lists and strings incl. non-ASCII and an outer variable of the same name; BREAK/CONTINUE wherever a loop encloses) with a DISPLAY probe per statement; BREAK/CONTINUE at every position of a three-statement body of every loop form, bare and guarded, alone and nested; random general programs; non-trivial = ended normally or with a runtime error".into(),
@@ -311,7 +378,22 @@ pub fn c03(ctx: &Ctx) -> PropResult {
     for f in fixed {
         cases.push(run_case(f.to_string(), "fixed-scenario"));
     }
-    let stats = run_cases(&ctx.driver, cases, &no_panic_oracle, &no_known, ctx.threads);
+    // arguments left to right, each once, bound by value at the moment they are evaluated
+    for src in operand_order_family() {
+        if src.contains("f3(") {
+            cases.push(run_case(src, "argument-order"));
+        }
+    }
+    // a bare RETURN / BREAK / CONTINUE at the end of a line is complete: the next line is a statement of its own
+    // (implementation-only oracle: the same program with an explicit `;` behaves identically)
+    for (a, b) in [("PROCEDURE f() {\nDISPLAY(\"in\")\nRETURN\n", "}\nDISPLAY(f())\n"), ("PROCEDURE f(q) {\nIF (q) {\nRETURN\n", "}\nRETURN 5\n}\nDISPLAY(f(TRUE))\nDISPLAY(f(FALSE))\n"), ("PROCEDURE f() {\nREPEAT 2 TIMES {\nRETURN\n", "}\n}\nDISPLAY(f())\n")] {
+        for next in ["-1", "(2)", "[3]", "\"dead\"", "z <- 4", "DISPLAY(\"next\")", "NOT TRUE", "f()"] {
+            let nl = format!("{a}{next}\n{b}");
+            let semi = format!("{}; {next}\n{b}", a.trim_end_matches('\n'));
+            cases.push(run_case(nl, "bare-return-newline").aux(semi));
+        }
+    }
+    let stats = run_cases(&ctx.driver, cases, &newline_twin_oracle, &no_known, ctx.threads);
     PropResult {
         stats,
         rule: "random programs with 1-3 procedures (0-3 parameters, bodies with nested IF / all three loops / RETURN valued or bare / recursion), calls nested in expressions, argument counts off by one, undefined names; RETURN (valued, bare, with expression, absent) at each of 3 positions inside 6 nesting wrappers followed by probes; fixed scenarios for recursion, mutual recursion, scope isolation in both directions, by-value / by-reference, argument order; non-trivial = ended normally or with a runtime error".into(),
